@@ -76,9 +76,9 @@ type expect struct {
 func (b *Batch) expectFor(i int) *expect {
 	s := &b.Spans[i]
 	e := &expect{skip: map[string]bool{}, derived: map[string]bool{}}
-	e.row = traceRow{TraceID: s.tid16(), SpanID: unhex(s.SpanID), Name: s.Name}
+	e.row = traceRow{TraceID: s.tid16(), SpanID: unhexPad(s.SpanID, 16), Name: s.Name}
 	if s.Parent != "" {
-		e.row.Parent = unhex(s.Parent)
+		e.row.Parent = unhexPad(s.Parent, 16)
 	}
 	if s.HasTS {
 		e.row.TsNs = int64(s.StartNs)
@@ -269,7 +269,7 @@ func (b *Batch) ndCarried(i int, field string) (string, bool) {
 			case "name":
 				return s.Name, true
 			case "parent":
-				return unhex(s.Parent), true
+				return unhexPad(s.Parent, 16), true
 			case "ts":
 				return strconv.FormatInt(int64(s.StartNs), 10), true
 			case "dur":
@@ -854,8 +854,13 @@ func (c *checker) compareSpan(i int, e *expect, g *tracepb.Span, gotSvc string, 
 		c.viol(p+"_readback_trace_id_mismatch", "span %d: trace id %s, pushed %s", i, hx(string(g.TraceId)), hx(e.row.TraceID))
 	}
 	if string(g.ParentSpanId) != e.row.Parent {
+		if p == "zipkin" && len(s.Parent) > 0 && len(s.Parent) < 16 && len(g.ParentSpanId) == 0 {
+			c.viol("zipkin_readback_short_parent_id_dropped", "span %d: parentId %q (%d hex digits; the writer stores it left-padded as %s) reads back as no parent", i, s.Parent, len(s.Parent), hx(e.row.Parent))
+			goto parentDone
+		}
 		c.viol(p+"_readback_parent_mismatch", "span %d: parent %q, pushed %q", i, hx(string(g.ParentSpanId)), hx(e.row.Parent))
 	}
+parentDone:
 	if g.Name != e.row.Name {
 		c.viol(p+"_readback_name_mismatch", "span %d: name %q, pushed %q", i, g.Name, e.row.Name)
 	}
